@@ -185,6 +185,17 @@ def e2e(case):
             with np.errstate(all="ignore"):
                 series = bldfm.run_bldfm_timeseries(cfg2, cfg2.towers[0])
         sweep = (dirs, series)
+    # every other case: the same configuration is first run as a concentration (dispersion) field in the same process - a user who
+    # looks at the plume and then asks for the footprint
+    plume_first = case["idx"] % 2 == 1
+    if plume_first:
+        raw3 = json_copy(raw)
+        raw3.setdefault("solver", {})["footprint"] = False
+        cfg3 = parse_config_dict(raw3)
+        with warnings.catch_warnings():
+            warnings.simplefilter("ignore")
+            with np.errstate(all="ignore"):
+                bldfm.run_bldfm_single(cfg3, cfg3.towers[0], met_index=0)
     with warnings.catch_warnings():
         warnings.simplefilter("ignore")
         with np.errstate(all="ignore"):
